@@ -637,4 +637,8 @@ def r21f(F):
 
 from . import c09 as _c09
 
-RULES = [r21a, r21b, r21c, r21h, r21p, r21s, r21d, r21n, r21q, r21m, r21e, r21f, _c09.r25p]
+from . import c06 as _c06
+
+# R19n (C06): the checker counts its nesting into module expressions; a flag instead of a counter ends the skipping of an outer
+# module's statements when an inner module closes - for C07 that is a false rejection (the rest of the body is checked at file level)
+RULES = [r21a, r21b, r21c, r21h, r21p, r21s, r21d, r21n, r21q, r21m, r21e, r21f, _c09.r25p, _c06.r19n]
